@@ -735,6 +735,59 @@ class Gen:
         self.count("bitflip_near_%s" % ("5plus" if near >= 5 else str(near)))
         return " ".join(toks)
 
+    def share_case(self, tier):
+        """D cases with share=1 (round 5, second pass; F-C03h): every thread-list entry cites the stack descriptor and the context
+        location of the first one — the same file bytes. T threads x S stack bytes with a stack of return addresses into a module
+        without symbols (one scan frame per word), frame-pointer chains, zeros, or a module whose STACK CFI rule moves the CFA by
+        1..8 bytes and yields a constant return address (one frame per step)."""
+        rng = self.rng
+        cpu = rng.choice(["amd64"] * 4 + ["x86", "x86", "arm64", "arm", "mips"])
+        bits, ips, sps, fps, lrs, pre = CPUS[cpu]
+        w = bits // 8
+        M = (1 << bits) - 1
+        cap = 4096 if tier == "quick" else 40000          # frames of the whole state, roughly
+        while True:
+            T = rng.choice([2, 3, 5, 8, 16, 33, 64, 128])
+            S = rng.choice([16, 64, 200, 256, 1024, 4096])
+            step = rng.choice([0, 0, 0, 1, 2, w, 8]) if cpu in ("amd64", "x86") else 0
+            frames = T * (S // (step if step else w))
+            if frames <= cap:
+                break
+        base = rng.choice([0x10000, 0x7fff0000, (M + 1 - S) & ~(w - 1)])
+        ret = 0x400010
+        style = rng.below(4)
+        b = bytearray()
+        for i in range(S // w):
+            a = base + i * w
+            if style <= 1 or step:
+                v = ret + (i % 7)
+            elif style == 2:
+                v = (a + 2 * w) if i % 2 == 0 else ret
+            else:
+                v = 0
+            b += le(v, w)
+        b += bytes(S - len(b))
+        sp = base + rng.choice([0, 0, 0, w, S // 2])
+        kv = ["%s=%d" % (ips[0], ret), "%s=%d" % (sps[0], sp & M)]
+        if fps:
+            kv.append("%s=%d" % (fps[0], (base + w) & M if style == 2 else 0))
+        toks = ["cpu=%s" % cpu, "os=%s" % rng.choice(["linux", "win", "mac", "android"]), "opt=%d" % rng.choice([0, 0, 0, 0, 2, 3, 5]),
+                "T=1:%d:%s:%s" % (base, hx(bytes(b)), ",".join(kv))]
+        for i in range(2, T + 1):
+            toks.append("T=%d:0:-:-" % (i if rng.chance(7, 8) else 1))
+        if step:
+            sym = "MODULE Linux %s 000000000000000000000000000000000 mod\nSTACK CFI INIT 0 1000 .cfa: %s%s %d + .ra: %d\n" % (
+                "x86_64" if cpu == "amd64" else "x86", pre, sps[0], step, ret + 1)
+            toks.append("M=4194304:4096:%s:0" % hx(b"/m/mod"))
+            toks.append("S=%s" % hx(sym.encode()))
+        else:
+            toks.append("M=4194304:4096:%s:-" % hx(b"/m/mod"))
+        if rng.chance(1, 3):
+            toks.append("X=%d:11:0:0:0:0:0:-" % rng.choice([1, 2, 99]))
+        toks.append("share=1")
+        self.count("D_share")
+        return "D " + " ".join(toks)
+
     def file_case(self):
         rng = self.rng
         f = rng.choice(SAMPLES)
@@ -997,6 +1050,11 @@ class Gen:
                 toks.append("U=%d:%d:%s" % (b, rng.choice([0x1000, 0x8000, 0x100000, 0x300000]), hx(("/u/unl%d" % i).encode())))
             for (b, sz) in extra:
                 toks.append("R=%d:%s" % (b, hx(lace(b, sz))))
+            if not mem64 and rng.chance(1, 6):
+                # every thread-list entry cites the first entry's stack bytes and context (harness: share_patch); the memory list
+                # keeps the threads' own regions, so the fall-back of the stack choice still has other regions to pick
+                toks.append("share=1")
+                self.count("thread_loop_shared_descriptor")
             out.append("T " + " ".join(toks))
         self.dist["thread_loop_cases"] = n
         return out
@@ -1113,7 +1171,7 @@ def parse_kv(ans):
 class C03(PropBase):
     pid = "C03"
     coq_dirs = ["Base", "C08", "C03"]      # C05 / C11 / Gen are imported (other owners): their own gates scan them
-    translators = ["c03_sites.py"]
+    translators = ["c03_sites.py", "c03_render.py", "unwind_consts.py"]   # unwind_consts.py: C05's model (imported) is instantiated from Gen/UnwindConsts.v
     bins = ["c03"]
     impl_timeout = 3000        # wall-clock backstop of the runner for a whole shard; hangs are ended per case by the CPU watchdogs
     impl_mem_gb = 4
@@ -1216,6 +1274,8 @@ class C03(PropBase):
         nb = 700 if tier == "quick" else 6000
         for _ in range(nb):
             cases.append(g.bitflip_case())
+        for _ in range(60 if tier == "quick" else 600):
+            cases.append(g.share_case(tier))
         g.dist["D_bitflip"] = nb
         g.dist["D_random"] = nd
         g.dist["F"] = nf
@@ -1271,15 +1331,35 @@ class C03(PropBase):
             if int(d.get("fr", "0/0").split("/")[0]) > 1:
                 return "a thread of a %s dump has %s frames although that CPU has no unwinder" % (case.split()[1][4:], d.get("fr"))
         peak, insz, ms = int(d.get("peak", 0)), int(d.get("in", 0)), int(d.get("ms", 0))
-        if peak > (64 << 20) + 20000 * insz:
-            return "peak heap %d bytes for %d input bytes exceeds the budget 64 MiB + 20000 x input" % (peak, insz)
+        cpu = int(d.get("cpu", 0))
+        # share=1 (F-C03h): T thread-list entries cite the same S stack bytes, which the file holds once. The budget that holds is
+        # linear in (input + T x S) — each descriptor counted with the bytes it cites, i.e. quadratic in the length of the file
+        # (c03_frames_budget_in_file_size); it is enforced here and by the harness's CPU watchdog. The budget linear in the file
+        # length does NOT hold (c03_linear_frame_budget_refuted): exceeding only that one is reported under the recorded finding.
+        cited = 0
+        if " share=1" in case and kind == "D":
+            tt = [t for t in case.split()[1:] if t.startswith("T=")]
+            if tt:
+                b = tt[0].split(":")[2]
+                cited = len(tt) * (0 if b == "-" else (int(b[1:]) if b.startswith("z") else len(b) // 2))
+        if peak > (64 << 20) + 20000 * (insz + cited):
+            return "peak heap %d bytes for %d input bytes exceeds the budget 64 MiB + 20000 x (input%s)" % (
+                peak, insz, " + %d stack bytes cited by the thread list" % cited if cited else "")
+        if cpu > CPU_BUDGET_BASE_MS + (insz + cited) // CPU_BUDGET_BYTES_PER_MS:
+            return "case used %d ms of CPU time for %d input bytes%s (budget %d ms + 1 ms per %d bytes)" % (
+                cpu, insz, " + %d cited stack bytes" % cited if cited else "", CPU_BUDGET_BASE_MS, CPU_BUDGET_BYTES_PER_MS)
+        if cited and peak > (64 << 20) + 20000 * insz:
+            return ("F-C03h: peak heap %d bytes for a dump of %d bytes exceeds the budget LINEAR in the input size (64 MiB + 20000 x input): "
+                    "%d thread-list entries cite the same stack bytes (%d frames in all); within the quadratic budget"
+                    % (peak, insz, len(tt), int(d.get("sym", "0/0").split("/")[1])))
+        if cited and cpu > CPU_BUDGET_BASE_MS + insz // CPU_BUDGET_BYTES_PER_MS:
+            return ("F-C03h: %d ms of CPU time for a dump of %d bytes exceeds the budget LINEAR in the input size (%d ms + 1 ms per %d bytes): "
+                    "%d thread-list entries cite the same stack bytes; within the quadratic budget"
+                    % (cpu, insz, CPU_BUDGET_BASE_MS, CPU_BUDGET_BYTES_PER_MS, len(tt)))
         # no wall-clock clause: on a machine with a load average of 175 (thorough run of round 5) a legitimate 3.5 s case took 537 s
         # of wall clock; time is judged as CPU time below, a case that waits without computing is ended by the harness's backstops
         # time tied to the input size, measured as CPU time of the processing thread (independent of machine load);
         # the harness's CPU watchdog ends a case that exceeds the same budget while it is still running
-        cpu = int(d.get("cpu", 0))
-        if cpu > CPU_BUDGET_BASE_MS + insz // CPU_BUDGET_BYTES_PER_MS:
-            return "case used %d ms of CPU time for %d input bytes (budget %d ms + 1 ms per %d bytes)" % (cpu, insz, CPU_BUDGET_BASE_MS, CPU_BUDGET_BYTES_PER_MS)
         # work counted at the symbol-provider interface (hook-free): the unwinder asks the provider a bounded number of
         # times per produced frame (fill_symbol for the frame, walk_frame for its CFI, fill_symbol per scanned stack word)
         if "/" in d.get("sym", ""):
